@@ -167,6 +167,12 @@ def check(col: Collector, tier: str):
             col.defer(f"most_accurate_type returns `{src(r)[:60]}`: the choice is not made by sorted()/max() over the priority table "
                       "(a hand-written selection): C13.R4 returns-highest-priority-type not decided on this shape")
         key = kwarg(core, "key") if core is not None else None
+        if isinstance(key, ast.Name):
+            # a named one-line function given as the key reads as the lambda of its return expression
+            kf = [f_ for f_ in um.funcs.values() if f_.name == key.id] if hasattr(um, "funcs") else []
+            body_ = [s_ for s_ in kf[0].node.body if not (isinstance(s_, ast.Expr) and isinstance(s_.value, ast.Constant))] if len(kf) == 1 else []
+            if len(body_) == 1 and isinstance(body_[0], ast.Return) and body_[0].value is not None and len(kf[0].node.args.args) == 1:
+                key = ast.Lambda(args=kf[0].node.args, body=body_[0].value)
         ok = core is not None and len(core.args) == 1 and src(core.args[0]) == lst and isinstance(key, ast.Lambda) and len(key.args.args) == 1 \
             and src(key.body) == f"_type_priority[{key.args.args[0].arg}.type]"
     col.add("C13.R4", mat.short, "returns-highest-priority-type", ok or undecided,
